@@ -327,6 +327,8 @@ type pipeBackend struct {
 	bufSize  int
 	script   *respScript
 	skipRead bool
+	// closeBody: the handler closes the request body when it is done with it (as connect-go and grpc-go do)
+	closeBody bool
 }
 
 // write modes (segmentation of the backend's response body)
@@ -447,6 +449,9 @@ func (b *pipeBackend) ServeHTTP(w http.ResponseWriter, r *http.Request) {
 	rec.writer = w
 	if !b.skipRead {
 		rec.body, rec.readErr = readAllSized(r.Body, b.bufSize, 200)
+	}
+	if b.closeBody {
+		r.Body.Close()
 	}
 	s := b.script
 	if s == nil {
